@@ -1,6 +1,7 @@
 SPECIFICATION Spec
 CONSTANTS
-  Alphabet = {"cdata", "cdend", "cdo", "cdc", "lt", "bang", "dash", "rb", "gt", "x", "nul"}
+  Prefixes = {"cdata", "cdo"}
+  Alphabet = {"cdend", "cdc", "dash", "rb", "gt", "lt", "x", "nul"}
   MaxLen = 5
   Emit = TRUE
   VoidClosesTag = TRUE
